@@ -353,6 +353,13 @@ func (state *state) rewrite() error {
 		}
 	}
 
+	err = tmpfile.Sync()
+	if err != nil {
+		tmpfile.Close()
+		os.Remove(tmpfile.Name())
+		return err
+	}
+
 	err = tmpfile.Close()
 	if err != nil {
 		os.Remove(tmpfile.Name())
